@@ -263,6 +263,11 @@ class Parser(object):
 
     def p_enum_def(self, t):
         '''enum_def : ENUM unique_id enum_body SEMI'''
+        self._parser_check(
+            all(member.name != t[2] for member in t[3]),
+            "name '{}' redefined".format(t[2]),
+            t.lexer.lineno, 0
+        )
         try:
             node = model.Enum(t[2], t[3])
             self.typedecls[t[2]] = node
